@@ -348,6 +348,22 @@ func (w *gwWorld) Exec(s gwStep) (map[string]any, bool) {
 			}
 		}
 		return simple(r, map[string]any{"vid": w.symOf(r.Header.Get("X-Amz-Version-Id")), "etag": et}), true
+	case "CopyObjectVersion":
+		src := w.bucket(str(a, "sb")) + "/" + s3c.EncPath(w.key(str(a, "sk"))) + "?versionId=" + w.realOf(str(a, "vid"))
+		r := cl.Do(s3c.Req{Method: "PUT", Path: "/" + b + "/" + s3c.EncPath(k), Headers: []s3c.KV{{K: "X-Amz-Copy-Source", V: src}}})
+		if r.OK() {
+			w.bindVid(str(s.R, "vid"), r.Header.Get("X-Amz-Version-Id"))
+		}
+		et := "?"
+		if r.OK() {
+			if i := bytes.Index(r.Body, []byte("<ETag>")); i >= 0 {
+				j := bytes.Index(r.Body[i:], []byte("</ETag>"))
+				if j > 0 {
+					et = w.etagContent(strings.ReplaceAll(string(r.Body[i+6:i+j]), "&#34;", ""))
+				}
+			}
+		}
+		return simple(r, map[string]any{"vid": w.symOf(r.Header.Get("X-Amz-Version-Id")), "etag": et}), true
 	case "GetObject":
 		r := GetObject(cl, b, k)
 		return w.readObs(cl, b, k, "", r), true
